@@ -150,7 +150,7 @@ class C18(F.Check):
         'TLS model: a read never crosses a record boundary and is clamped to the buffer (as SSLSocket.read does); at most one decrypted record is buffered',
         'the clause about real loopback TCP/TLS runs and the platform selectors (poll/kqueue/select) is not decided by this family and not claimed',
     ]
-    expect_sites = ('plain', 'tls', 'record>B', 'burst>B', 'empty-text-at-read-end', 'real-sizes')
+    expect_sites = ('plain', 'tls', 'record>B', 'burst>B', 'empty-text-at-read-end', 'real-sizes', 'platform-selector')
 
     def rule(self, tier):
         return ('transports {plain, tls} x bursts <= %d x records per burst <= %d x sizes {1,7,8,9,17} (B=8) x %d pattern offsets; plus real-size patterns. '
@@ -165,10 +165,11 @@ class C18(F.Check):
         for tls in (False, True):
             for off in offs:
                 jobs.append({'tls': tls, 'offset': off, 'tier': tier})
+            jobs.append({'tls': tls, 'offset': 0, 'tier': tier, 'selector': 'platform'})
         jobs.append({'real': True})
         return jobs
 
-    def run_pattern(self, tls, bursts, offset, B, big=None):
+    def run_pattern(self, tls, bursts, offset, B, big=None, selector='fake'):
         total = sum(sum(s) for _, s in bursts)
         stream = make_stream(total, big or (2 * B + 4), offset)
         mon = Monitor(bursts, stream, tls)
@@ -177,6 +178,7 @@ class C18(F.Check):
         Sess.BUFFER_SIZE = B
         try:
             world = W.World(mon.server, max_waits=400)
+            world.selector_kind = selector
             with world:
                 ws = W.L_websocket.WebSocket('wss://example.com/x' if tls else 'ws://example.com/x', proxies={})
                 world._ws = ws
@@ -225,8 +227,12 @@ class C18(F.Check):
             ]
             for tls, bursts in pats:
                 for off in (0, 3, 6):
-                    run, mon, stream = self.run_pattern(tls, bursts, off, 65536, big=20000)
-                    self.account(res, {'real': True, 'tls': tls, 'bursts': bursts, 'offset': off}, mon, run)
+                    # 'platform': the selector class lomond itself picks on this platform, over the fake select module (poll / epoll / kqueue)
+                    for sel in (('fake', 'platform') if off == 0 else ('fake',)):
+                        run, mon, stream = self.run_pattern(tls, bursts, off, 65536, big=20000, selector=sel)
+                        self.account(res, {'real': True, 'tls': tls, 'bursts': bursts, 'offset': off, 'selector': sel}, mon, run)
+                        if sel == 'platform':
+                            res.covered.add('platform-selector')
             # a large frame that is the very last thing available: sizes around and at multiples of 32 KiB / 64 KiB
             for tls in (False, True):
                 for size in (32768, 65535, 65536, 65537, 98304, 131072, 16384 * 5):
@@ -242,8 +248,8 @@ class C18(F.Check):
         tls, off = job['tls'], job['offset']
         res.covered.add('tls' if tls else 'plain')
         for bursts in self.shapes(job['tier'], B):
-            run, mon, stream = self.run_pattern(tls, bursts, off, B)
-            self.account(res, {'tls': tls, 'bursts': bursts, 'offset': off, 'B': B}, mon, run)
+            run, mon, stream = self.run_pattern(tls, bursts, off, B, selector=job.get('selector', 'fake'))
+            self.account(res, {'tls': tls, 'bursts': bursts, 'offset': off, 'B': B, 'selector': job.get('selector', 'fake')}, mon, run)
             if any(s > B for _, ss in bursts for s in ss):
                 res.covered.add('record>B')
             if any(sum(ss) > B for _, ss in bursts):
@@ -275,9 +281,9 @@ class C18(F.Check):
                 stream = stream[:-len(SFrame(PING, b'last').encode())]
             run, mon, stream = self.run_exact(case['tls'], bursts, stream)
         elif case.get('real'):
-            run, mon, stream = self.run_pattern(case['tls'], bursts, case['offset'], 65536, big=20000)
+            run, mon, stream = self.run_pattern(case['tls'], bursts, case['offset'], 65536, big=20000, selector=case.get('selector', 'fake'))
         else:
-            run, mon, stream = self.run_pattern(case['tls'], bursts, case['offset'], case['B'])
+            run, mon, stream = self.run_pattern(case['tls'], bursts, case['offset'], case['B'], selector=case.get('selector', 'fake'))
         if verbose:
             print('case', case)
             print('stream', stream[:60].hex())
